@@ -105,6 +105,10 @@ fn templates() -> Vec<Template> {
     add("MalformedDocComment", "enumerator-field", vec![slot(Def), l("enum E {"), slot(Sibling), l("  W"), slot(Member), l("  V("), slot(Elem), l("/// @foo bar"), l("    f: int32"), l("  )"), l("}")]);
     add("BrokenDocLink", "link-in-a-param-message", vec![slot(Def), l("interface I {"), slot(Sibling), l("  other()"), slot(Elem), l("/// @param a: see {@link Nope}"), l("  op(a: int32)"), l("}")]);
     add("BrokenDocLink", "see-tag", vec![slot(Sibling), l("struct Sib {}"), slot(Elem), l("/// @see Nope"), l("struct S {}")]);
+    // links to things that exist but cannot be linked to (a primitive, a module): the same lint, reported on another path
+    add("BrokenDocLink", "link-to-a-primitive", vec![slot(Sibling), l("struct Sib {}"), slot(Elem), l("/// See {@link bool}."), l("struct S {}")]);
+    add("BrokenDocLink", "link-to-a-module-on-a-field", vec![slot(Def), l("struct S {"), slot(Sibling), l("  s: int32"), slot(Elem), l("/// See {@link M}."), l("  f: int32"), l("}")]);
+    add("BrokenDocLink", "see-a-module-on-an-operation", vec![slot(Def), l("interface I {"), slot(Sibling), l("  other()"), slot(Elem), l("/// @see M"), l("  op()"), l("}")]);
     // ONE element that owns two lints of different kinds (the second is of the control's kind and says "Companion"): a
     // suppression on the element that names one of them says nothing about the other
     add("Deprecated", "field-with-a-broken-link-too", vec![slot(Def), l("struct S {"), slot(Sibling), l("  s: int32"), slot(Elem), l("/// See {@link NopeCompanion}."), l("  f: D"), l("}")]);
@@ -601,10 +605,12 @@ struct BinRun {
 fn run_binary_c13(r: &Rendered) -> BinRun {
     use crate::proc::{encode_reply, run, split_request, Gen, Install, Node as PNode, Scenario, Script, Step};
     let mut sc = Scenario::default();
-    sc.tree.push(("f0.slice".into(), PNode::File(r.files[0].as_bytes().to_vec())));
-    sc.tree.push(("f1.slice".into(), PNode::File(r.files[1].as_bytes().to_vec())));
+    // (the name of the first file is the END of the name of the second, and of its path: a file is found by its name,
+    // not by a part of it)
+    sc.tree.push(("data.slice".into(), PNode::File(r.files[0].as_bytes().to_vec())));
+    sc.tree.push(("sub/metadata.slice".into(), PNode::File(r.files[1].as_bytes().to_vec())));
     sc.gens.push(Gen { name: "capture".into(), install: Install::Script(Script(vec![Step::ReadAll, Step::Stdout(encode_reply(&[], &[])), Step::Exit(0)])) });
-    sc.argv = vec!["f0.slice".into(), "f1.slice".into(), "--disable-color".into(), "-G".into(), "{gen0}".into()];
+    sc.argv = vec!["data.slice".into(), "sub/metadata.slice".into(), "--disable-color".into(), "-G".into(), "{gen0}".into()];
     sc.argv.extend(r.cli.iter().cloned());
     let o = run(&sc, std::time::Duration::from_secs(30));
     let stderr = o.stderr_text();
@@ -679,6 +685,20 @@ impl Family for BinaryDifferential {
         for gone in &remaining {
             if !names(&a, &code_of(gone), t) {
                 out.violate(format!("{fam}/unnamed-warning-disappeared"), format!("{gone}\n{}", desc()));
+            }
+        }
+        // a file-level attribute is about ITS file: one on the first file changes no report located in the second, and
+        // allow(All) on the second file (when it parses) leaves no warning located there
+        let in_other = |l: &String| l.contains(" --> sub/metadata.slice:");
+        if p == Place::File {
+            let (bo, wo): (Vec<&String>, Vec<&String>) = (b.warnings.iter().filter(|l| in_other(l)).collect(), w.warnings.iter().filter(|l| in_other(l)).collect());
+            if bo != wo {
+                out.violate(format!("{fam}/file-attribute-of-another-file-applied"), format!("the attribute is on data.slice, but the warnings located in sub/metadata.slice changed: {bo:?} -> {wo:?}\n{}", desc()));
+            }
+        }
+        if p == Place::OtherFile && a == Arg::All && e <= 1 {
+            if let Some(l) = w.warnings.iter().find(|l| in_other(l)) {
+                out.violate(format!("{fam}/file-attribute-not-applied-to-its-own-file"), format!("sub/metadata.slice carries [[allow(All)]] but a warning located in it is still written: {l}\n{}", desc()));
             }
         }
         // generator: both or neither; request differs by the allow attribute only
